@@ -272,11 +272,13 @@ func (c ownCase) Build(w *world.World) *world.State {
 	case "api-deleting":
 		a := set.DeepCopy()
 		a.DeletionTimestamp = &gen.T0
+		a.Finalizers = []string{"example.com/hold"}
 		a.ResourceVersion = "2"
 		st.API.Sets["web"] = a
 	case "cache-deleting":
 		a := set.DeepCopy()
 		a.DeletionTimestamp = &gen.T0
+		a.Finalizers = []string{"example.com/hold"}
 		st.API.Sets["web"] = a
 		st.Cache.Sets["web"] = a
 	case "other-uid":
@@ -383,7 +385,7 @@ func ownGrid(apis []string, policies []string, paused bool, podDepth int, thorou
 					pin, pinTerm, allB := pinMode == 1 || pinMode == 2, pinMode == 2, pinMode == 3
 					for _, num := range []int{0, 1, 2} {
 						eq, rev := num == 1, num == 2
-						if eq && !thorough && lim != 0 {
+						if eq && !thorough && lim == 10 {
 							continue
 						}
 						for _, a := range rc {
